@@ -23,7 +23,9 @@ TOL = {('default',): 3000.0}
 # under the hostile 'collapsing tail' step sequences the unchanged library is fooled on ~1.4 % of the in-scope elements
 # (23 of 1651 in the calibration probe); a breakage of the outlier / selection logic multiplies that (18 % for seeded/S-C02)
 RATE_CAPS = {'selector-picked-rounding-dominated-step': ('hostile_tail_elements_in_scope', 0.06, 100)}
-SENSITIVE = {'powi', 'powr', 'div', 'arctan', 'arcsin', 'arcsinh', 'arctanh', 'tan', 'tanh', 'sqrt'}
+# Bicomplex formulas that go through log(): real powers (hence sqrt) and the inverse functions. Integer powers and
+# division (hence tan, tanh) use ring arithmetic since the fix recorded in known_findings.json.
+SENSITIVE = {'arctan', 'arcsin'}
 MIN_COUNTERS = dict(quick={'asserted_elements': 1500, 'nontrivial_elements': 400, 'n0_bit_identity_asserted': 100,
                            'complex_valued_asserted': 40, 'array_cases': 300, 'user_step_generator_cases': 500},
                     thorough={'asserted_elements': 60000})
